@@ -9,6 +9,5 @@ CONSTANTS
   NestedRead = FALSE
   WriterPreferring = TRUE
   SplitGuards = FALSE
-INVARIANT SmallLaw
 POSTCONDITION LinAccepted
 CHECK_DEADLOCK FALSE
